@@ -293,11 +293,18 @@ def body_write(desc, F, *args):
     view = Graph(st, identifier=G1) if gn == "g1" else Graph(st, identifier=DATASET_DEFAULT_GRAPH_ID)
     committed = {k: list(v) for k, v in model.items()}     # what the endpoint must hold
     pending = {k: list(v) for k, v in model.items()}        # what it will hold after commit
+    first_terms = None
     for op in desc["ops"]:
         kind = op[0]
         if kind in ("add", "rm"):
-            s, o = S.iri(args[i]), S.term(op[2], args[i + 1])
-            i += 2
+            if "same" in op and first_terms is not None:
+                # the very same statement as the first write (same terms, hence the same generated text)
+                s, o = first_terms
+            else:
+                s, o = S.iri(args[i]), S.term(op[2], args[i + 1])
+                i += 2
+                if first_terms is None:
+                    first_terms = (s, o)
             pp = PRED[op[1]]
             if kind == "add":
                 view.add((s, pp, o))
@@ -369,6 +376,9 @@ def obligations(tier, seed):
         # the same statement written, withdrawn and written again inside one transaction: the queue must keep order and repetitions
         "add-rm111-add": [["add", "p", "L"], ["rm", "p", "L", "111"], ["add", "p", "L"]],
         "rm111-add-rm111": [["rm", "p", "L", "111"], ["add", "p", "L"], ["rm", "p", "L", "111"]],
+        # ... and with literally the same terms, so that the three generated statements are textually equal where they should be
+        "add-rmsame-addsame": [["add", "p", "L"], ["rm", "p", "L", "111", "same"], ["add", "p", "L", "same"]],
+        "rm111-addsame-rmsame": [["rm", "p", "L", "111"], ["add", "p", "L", "same"], ["rm", "p", "L", "111", "same"]],
     }
     wdata = [[("p", "d", "L"), ("p", "g1", "L")], [("p", "g1", "L"), ("p", "g1", "I")]]
     for name, ops in ops_cat.items():
@@ -382,7 +392,7 @@ def obligations(tier, seed):
                     if di == 1:
                         continue
                     data = [("p", view, "L")]
-                nsym = 2 * len(data) + 2 * sum(1 for o in ops if o[0] in ("add", "rm"))
+                nsym = 2 * len(data) + 2 * sum(1 for o in ops if o[0] in ("add", "rm") and "same" not in o)
                 sig = [("x%d" % i, "i") for i in range(nsym)]
                 tag = "%s/%s/%s" % (name, view, ",".join("%s@%s%s" % x for x in data))
                 obs.append(dict(oid="write/auto/%s" % tag, family="write",
@@ -398,7 +408,7 @@ def bounds(tier):
                     "store-backed Graph on the named graph, a ConjunctiveGraph and a Graph carrying the default graph's identifier on the default graph; triples() under all 8 pattern shapes with symbolic "
                     "probe terms, len(), membership, contexts(triple)",
             "write": "SPARQLUpdateStore with autocommit on, and off followed by commit / rollback / a read: 10 operation sequences (add, remove with 5 "
-                     "pattern shapes, add+remove, add-remove-add of one statement) on 2 symbolic endpoint triples; after every step the endpoint's graphs equal the model",
+                     "pattern shapes, add+remove, add-remove-add of one statement with fresh and with literally the same terms) on 2 symbolic endpoint triples; after every step the endpoint's graphs equal the model",
             "outside": "HTTP and result formats, blank nodes, initBindings / query() pass-through, LIMIT/OFFSET/ORDERBY attributes, add_graph / "
                        "remove_graph, update() with user text (_insert_named_graph), more than 2 endpoint triples or 2 writes"}
 
